@@ -212,6 +212,35 @@ theorem untouched_interface_stays (table : List Iface) (sels : List Selection) (
     · have : (i.index == some idx) = false := by simpa using hx
       simp [this]
 
+/-- **The newest word on a kind is the only one that counts**: of two consecutive selections of
+    the same kind only the second has an effect - so disabling and enabling again leaves every
+    interface as a single enable would (nothing of the disable lingers), and repeating a
+    selection changes nothing. -/
+theorem same_kind_overrides (sels : List Selection) (k : IfKind) (b1 b2 : Bool) (i : Iface) :
+    selected (sels ++ [(k, b1), (k, b2)]) i = selected (sels ++ [(k, b2)]) i := by
+  unfold selected lastMatch
+  by_cases hm : k.matches i = true
+  · simp [List.reverse_append, hm]
+  · have hm' : k.matches i = false := by simpa using hm
+    simp [List.reverse_append, hm']
+
+/-- ... for the whole interface table, in the code's own loop -/
+theorem same_kind_overrides_marks (sels : List Selection) (k : IfKind) (b1 b2 : Bool) (intfs : List Iface) :
+    selectedMarks (sels ++ [(k, b1), (k, b2)]) intfs = selectedMarks (sels ++ [(k, b2)]) intfs := by
+  rw [selected_iff, selected_iff]
+  exact List.map_congr_left fun i _ => same_kind_overrides sels k b1 b2 i
+
+/-- **A selection speaks only for the interfaces it matches**: whatever was selected before, an
+    interface the new selection does not match keeps its verdict, and one it matches gets the
+    new verdict. -/
+theorem new_selection_effect (sels : List Selection) (s : Selection) (i : Iface) :
+    selected (sels ++ [s]) i = if s.1.matches i then s.2 else selected sels i := by
+  unfold selected lastMatch
+  by_cases hm : s.1.matches i = true
+  · simp [List.reverse_append, hm]
+  · have hm' : s.1.matches i = false := by simpa using hm
+    simp [List.reverse_append, hm']
+
 /-- a dual-stack eth0 and an IPv4-only eth1: disabling IPv4 leaves eth0 its IPv6 address and
     kills eth1; enabling eth1 by name afterwards revives it -/
 example :
